@@ -43,6 +43,10 @@ func (d *Dataset) Expand() []Row {
 func valueOf(kind string, seed uint64, col, j int) string {
 	h := simrt.Hash3(seed, uint64(col)+77, uint64(j))
 	switch kind {
+	case "boundary":
+		// near-duplicate pairs (equal but for the last byte) whose length, together with the
+		// column name, sits at and around powers of two: fixed-size buffers, page and key limits
+		return boundaryValue(1, j) // Expand passes the real name length
 	case "order":
 		// values chosen to trap wrong comparisons: prefixes, case, bytes >= 0x80, digits, NUL, blanks
 		return orderTraps[j%len(orderTraps)]
@@ -69,6 +73,16 @@ func valueOf(kind string, seed uint64, col, j int) string {
 		return fmt.Sprintf("v%d", j)
 	}
 }
+
+func boundaryValue(nameLen, j int) string {
+	t := boundaryTotals[(j/2)%len(boundaryTotals)] - nameLen
+	if t < 1 {
+		t = 1
+	}
+	return strings.Repeat("x", t-1) + string(rune('a'+j%2))
+}
+
+var boundaryTotals = []int{15, 16, 17, 31, 32, 33, 63, 64, 65, 127, 128, 129, 130, 255, 256, 257, 511, 512, 513, 1023, 1024, 1025, 4095, 4096, 4097}
 
 var orderTraps = []string{"", "A", "B", "a", "ab", "abc", "b", "Z", "z", "é", "É", "a\x00", "a ", " a", "10", "9", "2", "-1", "\xff", "~", "aB", "Ab", "ÿ", "日", "a\n"}
 
@@ -115,7 +129,11 @@ func (sp *DataSpec) Expand() []Row {
 			default:
 				j = int((h >> 10) % uint64(card))
 			}
-			r = append(r, [2]S{cs.Name, S(valueOf(cs.Kind, sp.Seed, c, j))})
+			if cs.Kind == "boundary" {
+				r = append(r, [2]S{cs.Name, S(boundaryValue(len(cs.Name), j))})
+			} else {
+				r = append(r, [2]S{cs.Name, S(valueOf(cs.Kind, sp.Seed, c, j))})
+			}
 		}
 		if sp.Unique != "" {
 			r = append(r, [2]S{S(sp.Unique), S(fmt.Sprintf("r%d", i))})
@@ -164,6 +182,9 @@ func GenDataSpec(r *simrt.Rand, n int, wantUnique bool) *DataSpec {
 		cs.Kind = kinds[r.Intn(len(kinds))]
 		if r.Chance(1, 3) {
 			cs.Missing = []int{50, 300, 700, 950}[r.Intn(4)]
+		}
+		if r.Chance(1, 14) {
+			cs.Kind, cs.Card, cs.Shape = "boundary", r.Range(20, 2*len(boundaryTotals)), "uniform"
 		}
 		sp.Cols = append(sp.Cols, cs)
 	}
